@@ -32,6 +32,7 @@ Section Exec.
   (* executed step = freeze after the functional step *)
   Definition forwardX (sc : scene K) (s : state K) : state K := freezeS sc (forward K sc s).
   Definition backwardX (sc : scene K) (s : state K) : state K := freezeS sc (backward K sc s).
+  Definition backward_recX (sc : scene K) (rec : nat -> V3 K * V3 K) (s : state K) : state K := freezeS sc (backward_rec K sc rec s).
   Fixpoint iterate {X} (n : nat) (g : X -> X) (s : X) : X := match n with O => s | S m => iterate m g (g s) end.
   (* trajectory s0, s1, ..., sn *)
   Fixpoint traj {X} (n : nat) (g : X -> X) (s : X) : list X := s :: match n with O => [] | S m => traj m g (g s) end.
